@@ -11,8 +11,23 @@ use std::time::Instant;
 
 #[derive(Serialize, Deserialize, Clone, Debug)]
 pub enum ClockCase {
-    Clock { wtime: u64, btime: u64, winc: u64, binc: u64, black: bool, order: u8 },
+    /// `omit`: bit0 leaves out `winc` when it is 0, bit1 leaves out `binc` when it is 0 (GUIs such as cutechess
+    /// send the increment fields only when there is an increment)
+    Clock {
+        wtime: u64,
+        btime: u64,
+        winc: u64,
+        binc: u64,
+        black: bool,
+        order: u8,
+        #[serde(default)]
+        omit: u8,
+    },
     MoveTime { movetime: u64, black: bool },
+    /// a fixed move time together with the clock fields (some GUIs send both): the fixed time governs.
+    /// `movetime` is kept at or below the mover's clock so that both readings of the statement agree;
+    /// `place` = position of the movetime field among the others, `extra` adds `movestogo` / `depth` fields
+    Both { wtime: u64, btime: u64, winc: u64, binc: u64, movetime: u64, black: bool, place: u8, extra: u8 },
 }
 
 pub struct C13;
@@ -35,7 +50,7 @@ fn inc_value() -> impl Strategy<Value = u64> {
 impl C13 {
     fn run(&self, case: &ClockCase, ev: &mut Ev) -> Result<(), Fail> {
         let (cmd, limit, black, nontrivial) = match case {
-            ClockCase::Clock { wtime, btime, winc, binc, black, order } => {
+            ClockCase::Clock { wtime, btime, winc, binc, black, order, omit } => {
                 let parts = [format!("wtime {}", wtime), format!("btime {}", btime), format!("winc {}", winc), format!("binc {}", binc)];
                 // the four fields in one of a few orders GUIs use
                 let idx: [usize; 4] = match order % 4 {
@@ -44,12 +59,35 @@ impl C13 {
                     2 => [1, 0, 3, 2],
                     _ => [3, 2, 1, 0],
                 };
-                let cmd = format!("go {} {} {} {}", parts[idx[0]], parts[idx[1]], parts[idx[2]], parts[idx[3]]);
+                let mut fields: Vec<&str> = Vec::new();
+                for i in idx {
+                    let left_out = (i == 2 && *winc == 0 && omit & 1 != 0) || (i == 3 && *binc == 0 && omit & 2 != 0);
+                    if left_out {
+                        ev.class("zero_increment_field_left_out");
+                    } else {
+                        fields.push(&parts[i]);
+                    }
+                }
+                let cmd = format!("go {}", fields.join(" "));
                 let (own, inc) = if *black { (*btime, *binc) } else { (*wtime, *winc) };
                 let share = (own as f64 * 0.02) as u64;
                 (cmd, own, *black, share + inc < 155 || inc > own)
             }
             ClockCase::MoveTime { movetime, black } => (format!("go movetime {}", movetime), *movetime, *black, *movetime < 5),
+            ClockCase::Both { wtime, btime, winc, binc, movetime, black, place, extra } => {
+                let own = if *black { *btime } else { *wtime };
+                let mt = (*movetime).min(own);
+                let mut parts = vec![format!("wtime {}", wtime), format!("btime {}", btime), format!("winc {}", winc), format!("binc {}", binc)];
+                parts.insert(*place as usize % 5, format!("movetime {}", mt));
+                match extra % 4 {
+                    1 => parts.push("movestogo 40".to_string()),
+                    2 => parts.insert(0, "movestogo 1".to_string()),
+                    3 => parts.push("depth 60".to_string()),
+                    _ => {}
+                }
+                ev.class("movetime_together_with_clock_fields");
+                (format!("go {}", parts.join(" ")), mt, *black, true)
+            }
         };
         let mut s = Session::start(&[]).map_err(|e| Fail::new("harness", e))?;
         s.send(if black { "position startpos moves e2e4" } else { "position startpos" });
@@ -131,7 +169,7 @@ impl Prop for C13 {
     }
 
     fn rule(&self) -> String {
-        "Cases: `go wtime W btime B winc X binc Y` (all four always present, four field orders) with W, B log-uniform over 0..10^7 plus boundary values around 150/155 ms and the 7.5 s clock, increments 0 / small / clock-like / up to 10^5, either side to move; and `go movetime T`, T in 0..2000 with boundary values. Through the real binary: the `info time N` line must exist and N must not exceed the mover's remaining time (resp. T), hence be finite and non-negative; allotments up to 400 ms are run to completion and `bestmove` must arrive (later than N + 5 s = violation, between 2 and 5 s = inconclusive); for longer ones only the allotted figure is judged (isready / stop / quit behaviour belongs to C14). evaluations = go commands judged. Non-trivial: 2 % of the clock plus increment below 155 ms, or increment above the clock, or movetime below 5; distinct by command and side.".into()
+        "Cases: `go wtime W btime B winc X binc Y` (four field orders; one time in three an increment field whose value is 0 is left out, as GUIs that send increments only when there are any do) with W, B log-uniform over 0..10^7 plus boundary values around 150/155 ms and the 7.5 s clock, increments 0 / small / clock-like / up to 10^5, either side to move; `go movetime T`, T in 0..2000 with boundary values; and (one case in five) a fixed move time together with the four clock fields, in any of five places among them and optionally with `movestogo` / `depth` fields, T kept at or below the mover's clock so that the limit is T under either reading of the statement. Through the real binary: the `info time N` line must exist and N must not exceed the mover's remaining time (resp. T), hence be finite and non-negative; allotments up to 400 ms are run to completion and `bestmove` must arrive (later than N + 5 s = violation, between 2 and 5 s = inconclusive); for longer ones only the allotted figure is judged (isready / stop / quit behaviour belongs to C14). evaluations = go commands judged. Non-trivial: 2 % of the clock plus increment below 155 ms, or increment above the clock, or movetime below 5; distinct by command and side.".into()
     }
 
     fn assumptions(&self) -> Vec<String> {
@@ -159,8 +197,10 @@ impl Prop for C13 {
 
     fn strategy(&self, _ctx: &Ctx) -> BoxedStrategy<ClockCase> {
         prop_oneof![
-            3 => (clock_value(), clock_value(), inc_value(), inc_value(), any::<bool>(), 0u8..4).prop_map(|(wtime, btime, winc, binc, black, order)| ClockCase::Clock { wtime, btime, winc, binc, black, order }),
+            3 => (clock_value(), clock_value(), inc_value(), inc_value(), any::<bool>(), 0u8..4, prop_oneof![2 => Just(0u8), 1 => 1u8..4]).prop_map(|(wtime, btime, winc, binc, black, order, omit)| ClockCase::Clock { wtime, btime, winc, binc, black, order, omit }),
             1 => (prop_oneof![2 => prop::sample::select(vec![0u64, 1, 4, 5, 6, 10, 50, 200]), 1 => 0u64..2000], any::<bool>()).prop_map(|(movetime, black)| ClockCase::MoveTime { movetime, black }),
+            1 => (clock_value(), clock_value(), inc_value(), inc_value(), prop_oneof![1 => prop::sample::select(vec![0u64, 1, 5, 6, 50, 200]), 1 => 0u64..3000], any::<bool>(), 0u8..5, 0u8..4)
+                .prop_map(|(wtime, btime, winc, binc, movetime, black, place, extra)| ClockCase::Both { wtime, btime, winc, binc, movetime, black, place, extra }),
         ]
         .boxed()
     }
